@@ -6,6 +6,7 @@ import (
 	"bytes"
 	"encoding/json"
 	"fmt"
+	"net"
 	"sort"
 	"strconv"
 	"strings"
@@ -314,6 +315,9 @@ func genRequest(g *gen, c *Cfg, o *relayGenOpts, learnedHosts []string) Op {
 	if o.focus == "C13" || o.focus == "C06" {
 		rc = 3 + g.intn(7)
 	}
+	if o.focus == "followup" {
+		rc = 0
+	}
 	own := listenerDesignations(c, li, proto)
 	mkNext := func() string {
 		hop := topo.hops[g.intn(len(topo.hops))]
@@ -357,6 +361,11 @@ func genRequest(g *gen, c *Cfg, o *relayGenOpts, learnedHosts []string) Op {
 	case rc < 8:
 		routeCls = "own+next"
 		routes = append(routes, g.routeEntryFor(own[g.intn(len(own))], g.chance(40)))
+		if g.chance(15) {
+			// the listener twice (e.g. a spiral): only the first entry is consumed per pass
+			routeCls = "own+own+next"
+			routes = append(routes, g.routeEntryFor(own[g.intn(len(own))], g.chance(40)))
+		}
 		routes = append(routes, mkNext())
 	case rc < 9:
 		routeCls = "next"
@@ -444,6 +453,7 @@ func genRequest(g *gen, c *Cfg, o *relayGenOpts, learnedHosts []string) Op {
 		nv = 1 + g.intn(6)
 	}
 	var vias []string
+	var viaHostList []string
 	for i := 0; i < nv; i++ {
 		host := srcIP
 		port := srcPort
@@ -478,6 +488,9 @@ func genRequest(g *gen, c *Cfg, o *relayGenOpts, learnedHosts []string) Op {
 			tr = g.pick("UDP", "TCP", "UDP", "TLS")
 		}
 		vias = append(vias, viaEntry(tr, host, port, params))
+		if net.ParseIP(host) != nil && host != srcIP {
+			viaHostList = append(viaHostList, host)
+		}
 	}
 	viaNames := []string{"Via", "v", "VIA", "via", "V"}
 	parts := &msgParts{
@@ -517,7 +530,7 @@ func genRequest(g *gen, c *Cfg, o *relayGenOpts, learnedHosts []string) Op {
 		data = g.assemble(parts)
 	}
 	op := Op{Kind: "msg", ID: id, Proto: proto, SrcIP: srcIP, SrcPort: srcPort, Listen: li, Data: data, Settle: true,
-		S: map[string]string{"route": routeCls, "next": nextTrans}}
+		S: map[string]string{"route": routeCls, "next": nextTrans, "viaHosts": strings.Join(viaHostList, ",")}}
 	if proto == "tcp" {
 		op.Conn = fmt.Sprintf("c-%s-%d-%d", srcIP, srcPort, li)
 		if g.chance(30) {
@@ -637,23 +650,65 @@ func genRelayPlan(seed uint64, tier string, focus string) *Plan {
 		o.responses = true
 	}
 	var learned []string
+	var tcpRouted []string
+	burst := g.chance(45)
 	for i := 0; i < o.nMsgs; i++ {
-		if o.responses && (focus == "C02" && g.chance(75) || focus != "C02" && g.chance(25)) {
+		if o.responses && (focus == "C02" && g.chance(60) || focus != "C02" && g.chance(25)) {
 			p.Ops = append(p.Ops, genResponse(g, &p.Cfg, o))
+			continue
+		}
+		if len(tcpRouted) > 0 && g.chance(35) {
+			// the far end of a connection the proxy opened sends a request of its own over it
+			fo := genRequest(g, &p.Cfg, &relayGenOpts{focus: "followup", maxVal: 200, maxBody: 500}, nil)
+			fo.Proto = "tcp"
+			fo.Conn = ""
+			fo.S["outOf"] = tcpRouted[g.intn(len(tcpRouted))]
+			p.Ops = append(p.Ops, fo)
 			continue
 		}
 		op := genRequest(g, &p.Cfg, o, learned)
 		learned = append(learned, op.SrcIP)
+		// hosts listed in a Via (any position, any layout) are taught as well
+		for _, h := range strings.Split(op.S["viaHosts"], ",") {
+			if h != "" {
+				learned = append(learned, h)
+			}
+		}
+		if op.S["next"] == "tcp" {
+			tcpRouted = append(tcpRouted, op.ID)
+		}
+		if g.chance(40) {
+			op.S["answer"] = g.pick("200", "180,200", "100,200", "404", "183")
+		}
+		if burst && g.chance(60) && op.S["answer"] == "" {
+			op.Settle = false // processed concurrently with what follows
+		}
 		p.Ops = append(p.Ops, op)
+	}
+	if len(p.Ops) > 0 {
+		p.Ops[len(p.Ops)-1].Settle = true
 	}
 	return p
 }
 
 // ---- execution and oracles ----
 
+// learnedAt: the transport endpoint ("listener" in the statement's words:
+// a configured one, or one created for a TCP connection) through which a host
+// was learned.
 type learnedAt struct {
 	listen    int
 	transport string
+	addr      string // explicit endpoint for connection-level listeners ("" = the configured listener's)
+	port      int
+}
+
+func (a learnedAt) endpoint(c *Cfg) (string, int) {
+	if a.addr != "" {
+		return a.addr, a.port
+	}
+	l := c.Listens[a.listen]
+	return l.Addr, l.port(a.transport)
 }
 
 type relayState struct {
@@ -664,6 +719,18 @@ type relayState struct {
 	seenBranches map[string]string
 	routeAnswers map[string]string // To host -> answer (stability, C18)
 	emitFrom int
+	burstPrior  map[string][]learnedAt // learned before the current burst started
+	burstTaught map[string]bool        // hosts taught by messages of the current burst
+	done        map[string]*judgedReq  // per request id: what was relayed (for answers and follow-ups)
+	connOf      map[string]int         // request id -> inbound connection id (TCP ingress)
+}
+
+type judgedReq struct {
+	op      *Op
+	in      *sipwire.Msg
+	em      *Emitted
+	extra   int
+	srcPort int
 }
 
 func execRelay(t *testing.T, p *Plan) *Result {
@@ -671,20 +738,25 @@ func execRelay(t *testing.T, p *Plan) *Result {
 	w := runWorld(t, p, func(w *World) {
 		st := &relayState{w: w, c: &p.Cfg, entries: flattenRoutes(p.Cfg.Routes), learned: map[string][]learnedAt{},
 			seenBranches: map[string]string{}, routeAnswers: map[string]string{}}
+		st.done = map[string]*judgedReq{}
+		st.connOf = map[string]int{}
 		var pending []*Op
 		for i := range p.Ops {
 			op := &p.Ops[i]
 			switch op.Kind {
 			case "msg":
-				st.inject(op)
+				if len(pending) == 0 {
+					st.startBurst()
+				}
+				if !st.inject(op) {
+					continue
+				}
 				pending = append(pending, op)
 				if op.Settle {
 					if !w.K.Settle(10 * time.Second) {
 						break
 					}
-					for _, q := range pending {
-						st.judge(q)
-					}
+					st.judgeBurst(pending)
 					pending = nil
 				}
 			case "advance":
@@ -694,11 +766,8 @@ func execRelay(t *testing.T, p *Plan) *Result {
 				break
 			}
 		}
-		if !w.dead() {
-			w.K.Settle(10 * time.Second)
-			for _, q := range pending {
-				st.judge(q)
-			}
+		if !w.dead() && w.K.Settle(10*time.Second) {
+			st.judgeBurst(pending)
 		}
 	})
 	finish(w, p, r)
@@ -720,30 +789,270 @@ func clip(s string, n int) string {
 	return s
 }
 
-func (st *relayState) inject(op *Op) {
+func (st *relayState) inject(op *Op) bool {
 	w := st.w
 	l := st.c.Listens[op.Listen]
 	st.emitFrom = len(w.N.Emissions)
 	delay := time.Duration(op.DelayUs) * time.Microsecond
+	if op.I == nil {
+		op.I = map[string]int{}
+	}
+	if outOf := op.S["outOf"]; outOf != "" {
+		// the far end of a connection the proxy itself opened sends a request back over it
+		j := st.done[outOf]
+		if j == nil || j.em == nil || j.em.E.Proto != "tcp" {
+			w.stat("skipped:follow-up-without-outbound-connection")
+			return false
+		}
+		end := w.sinkEnds[j.em.E.ConnID]
+		if end == nil || end.Closed() || end.IsReset() {
+			w.stat("skipped:follow-up-without-outbound-connection")
+			return false
+		}
+		op.Listen = j.op.Listen
+		op.SrcIP = end.Local.IP.String()
+		op.SrcPort = end.Local.Port
+		op.I["srcPort"] = end.Local.Port
+		op.I["outbound"] = 1
+		st.connOf[op.ID] = end.ID
+		w.stat("probe:request-over-outbound-connection")
+		end.Write(op.Data)
+		return true
+	}
 	if op.Proto == "udp" {
 		from := udpAddr(hostPort(op.SrcIP, op.SrcPort))
 		w.N.InjectUDP(from, udpAddr(hostPort(l.Addr, l.UDP)), op.Data, delay+100*time.Microsecond)
-		return
+		return true
 	}
 	c, err := w.TCPConnTo(op.Conn, op.SrcIP, op.SrcPort, hostPort(l.Addr, l.TCP))
 	if err != nil {
 		w.K.Failures = append(w.K.Failures, "harness: cannot connect to listener: "+err.Error())
-		return
-	}
-	if op.I == nil {
-		op.I = map[string]int{}
+		return false
 	}
 	op.I["srcPort"] = c.Local.Port
+	st.connOf[op.ID] = c.ID
 	if len(op.Cuts) > 0 {
 		c.WriteCuts(op.Data, op.Cuts)
 	} else {
 		c.Write(op.Data)
 	}
+	return true
+}
+
+func (st *relayState) startBurst() {
+	st.burstPrior = map[string][]learnedAt{}
+	for h, la := range st.learned {
+		st.burstPrior[h] = la
+	}
+	st.burstTaught = map[string]bool{}
+}
+
+// judgeBurst judges the messages injected since the last quiescence. All of
+// them teach before any is judged; hosts taught within the burst are
+// don't-cares for the C06 insertion decision. Then the answers requested by
+// the plan are injected and judged (C02 histories, C07 return path).
+func (st *relayState) judgeBurst(pending []*Op) {
+	w := st.w
+	if len(pending) > 1 {
+		w.stat("probe:concurrent-burst")
+	}
+	for _, op := range pending {
+		in, _, err := sipwire.Parse(op.Data)
+		if err != nil || !in.IsRequest {
+			continue
+		}
+		vias, err := in.Vias()
+		if err != nil {
+			continue
+		}
+		st.burstTaught[op.SrcIP] = true
+		for _, v := range vias {
+			st.burstTaught[v.Host] = true
+		}
+		if op.I["outbound"] == 1 {
+			// the "listener" is the one created for the connection the proxy opened
+			if end := w.sinkEnds[st.connOf[op.ID]]; end != nil {
+				st.learnAt(learnedAt{op.Listen, "tcp", end.Remote.IP.String(), end.Remote.Port}, op.SrcIP, vias)
+			}
+		} else {
+			st.learn(op.Listen, op.Proto, op.SrcIP, vias)
+		}
+		for _, e := range st.emissionsOf(op.ID) {
+			_, eip, eport := emissionDest(e.E)
+			if li, tr := st.c.listenerAt(eip, eport); li >= 0 && tr == e.E.Proto && e.M != nil {
+				if vs, err := e.M.Vias(); err == nil {
+					st.learn(li, tr, udpAddr(e.E.Src).IP.String(), vs)
+					w.stat("probe:spiral-arrival")
+				}
+			}
+		}
+	}
+	for _, op := range pending {
+		st.judge(op)
+	}
+	// answers
+	var answered []*Op
+	for _, op := range pending {
+		if op.S["answer"] == "" {
+			continue
+		}
+		j := st.done[op.ID]
+		if j == nil || j.em == nil || j.em.M == nil || j.extra != 1 {
+			w.stat("skipped:answer-without-proxy-via")
+			continue
+		}
+		for k, status := range strings.Split(op.S["answer"], ",") {
+			code, _ := strconv.Atoi(status)
+			// a provisional answer precedes the final one (a provisional that
+			// arrives after the final response is outside C12's statement)
+			if rop := st.injectAnswer(j, code, time.Duration(k)*2*time.Millisecond); rop != nil {
+				answered = append(answered, rop)
+			}
+		}
+	}
+	if len(answered) > 0 && w.K.Settle(10*time.Second) {
+		for _, rop := range answered {
+			st.judgeAnswer(rop)
+		}
+	}
+}
+
+// injectAnswer lets the party that received the relayed request answer it the
+// way a UAS does: same Via stack, sent to the topmost Via.
+func (st *relayState) injectAnswer(j *judgedReq, code int, after time.Duration) *Op {
+	w := st.w
+	req := j.em.M
+	rp := respPlan{status: code, expires: -1}
+	if code > 100 {
+		rp.toTag = "tt" + strings.ReplaceAll(j.op.ID, "-", "")
+	}
+	data := buildResponse(req, rp, j.op.ID)
+	eproto, eip, eport := emissionDest(j.em.E)
+	rop := &Op{Kind: "msg", ID: fmt.Sprintf("%s.r%d", j.op.ID, code), Proto: eproto, SrcIP: eip, SrcPort: eport, Data: data,
+		S: map[string]string{"answerTo": j.op.ID}, I: map[string]int{}}
+	vias, err := req.Vias()
+	if err != nil || len(vias) == 0 {
+		return nil
+	}
+	top := vias[0]
+	li, tr := st.c.listenerAt(top.Host, top.EffPort())
+	if li < 0 {
+		w.stat("skipped:answer-top-via-not-a-listener")
+		return nil
+	}
+	rop.Listen = li
+	if eproto == "udp" {
+		if tr != "udp" && st.c.Listens[li].UDP != top.EffPort() {
+			w.stat("skipped:answer-transport-mismatch")
+			return nil
+		}
+		w.N.InjectUDP(udpAddr(hostPort(eip, eport)), udpAddr(hostPort(top.Host, top.EffPort())), data, after+150*time.Microsecond)
+		return rop
+	}
+	end := w.sinkEnds[j.em.E.ConnID]
+	if end == nil || end.Closed() || end.IsReset() {
+		w.stat("skipped:answer-connection-gone")
+		return nil
+	}
+	w.K.After(after, "tcp-answer", func() { end.Write(data) })
+	return rop
+}
+
+// judgeAnswer: the response to a relayed request returns to the hop the
+// request came from, carrying exactly the Via stack that hop sent.
+func (st *relayState) judgeAnswer(rop *Op) {
+	w := st.w
+	j := st.done[rop.S["answerTo"]]
+	in, _, err := sipwire.Parse(rop.Data)
+	if err != nil {
+		return
+	}
+	ems := st.emissionsOf(rop.ID)
+	reqOp := j.op
+	l := &st.c.Listens[reqOp.Listen]
+	st.judged("C02")
+	// through which listen entry does the answer return? (the proxy's own Via on the relayed request)
+	cross := false
+	if vs, err := j.em.M.Vias(); err == nil && len(vs) > 0 {
+		if li, _ := st.c.listenerAt(vs[0].Host, vs[0].EffPort()); li >= 0 && li != reqOp.Listen {
+			cross = true
+			w.stat("probe:answer-returns-through-another-listen-entry")
+		}
+	}
+	sig := fmt.Sprintf("history;ingress=%s;crossListener=%v", reqOp.Proto, cross)
+	origVias, _ := j.in.Vias()
+	sender := origVias[0]
+	_, askedRport := sender.Param("rport")
+	// where the hop is: its true source address when the proxy recorded it,
+	// else what it wrote
+	wantIP, wantPort := sender.Host, sender.EffPort()
+	if l.receivedSupport() {
+		wantIP = reqOp.SrcIP
+		if askedRport {
+			wantPort = j.srcPort
+		}
+	} else {
+		if rc, ok := sender.Param("received"); ok && rc.V != "" {
+			wantIP = rc.V
+			if rp, ok := sender.Param("rport"); ok {
+				if n, err := strconv.Atoi(rp.V); err == nil {
+					wantPort = n
+				}
+			}
+		}
+	}
+	if ip, ok := st.c.resolve(wantIP); ok {
+		wantIP = ip
+	} else if reqOp.Proto != "tcp" {
+		w.stat("dontcare:answer-towards-unresolvable-host")
+		return
+	}
+	if len(ems) != 1 {
+		st.v("C02", "answer-not-relayed-exactly-once", rop.ID, sig+fmt.Sprintf(";n=%d", len(ems)), "the answer to relayed request %s (arrived over %s from %s:%d) was relayed %d time(s)", reqOp.ID, reqOp.Proto, reqOp.SrcIP, j.srcPort, len(ems))
+		if len(ems) == 0 {
+			return
+		}
+	}
+	e := ems[0]
+	eproto, eip, eport := emissionDest(e.E)
+	sameConn := reqOp.Proto == "tcp" && e.E.Proto == "tcp" && e.E.ConnID == st.connOf[reqOp.ID]
+	st.judged("C07")
+	if reqOp.Proto == "tcp" {
+		st.judged("C12")
+		if !sameConn {
+			// the inbound connection is alive (nothing closed it): the answer belongs there
+			st.v("C12", "answer-not-on-request-connection", rop.ID, fmt.Sprintf("crossListener=%v", cross), "request %s arrived on connection %d; its answer was written to %s/%s (connection %d)", reqOp.ID, st.connOf[reqOp.ID], eproto, e.E.Dst, e.E.ConnID)
+		}
+	} else if eproto != strings.ToLower(sender.Transport) || eip != wantIP || eport != wantPort {
+		st.v("C02", "answer-wrong-destination", rop.ID, sig, "the answer to %s went to %s/%s:%d; the request came from %s:%d with Via %q (received-support %v): expected %s:%d", reqOp.ID, eproto, eip, eport, reqOp.SrcIP, j.srcPort, sender.Raw, l.receivedSupport(), wantIP, wantPort)
+		if l.receivedSupport() {
+			st.v("C07", "answer-not-to-true-source", rop.ID, fmt.Sprintf("rport=%v", askedRport), "the answer to %s went to %s:%d, the request's true source is %s:%d (rport requested: %v)", reqOp.ID, eip, eport, reqOp.SrcIP, j.srcPort, askedRport)
+		}
+	}
+	if e.M == nil {
+		return
+	}
+	outVias, err := e.M.Vias()
+	if err != nil {
+		st.v("C02", "via-undecodable", rop.ID, sig, "relayed Via does not decode: %v", err)
+		return
+	}
+	if len(outVias) != len(origVias) {
+		st.v("C02", "answer-via-stack", rop.ID, sig, "hop sent %d Via entries on %s, the answer came back with %d", len(origVias), reqOp.ID, len(outVias))
+	} else {
+		for i := range origVias {
+			a, b := origVias[i], outVias[i]
+			if i == 0 {
+				a, b = stripStamp(a), stripStamp(b)
+			}
+			if !viaEqual(a, b) {
+				st.v("C02", "answer-via-stack", rop.ID, sig, "Via entry %d sent as %q came back as %q", i, origVias[i].Raw, outVias[i].Raw)
+				break
+			}
+		}
+	}
+	st.judgeContent(rop, in, e.M)
+	_ = w
 }
 
 func (st *relayState) emissionsOf(id string) []*Emitted {
@@ -823,22 +1132,9 @@ func (st *relayState) judgeRequest(op *Op, in *sipwire.Msg, ems []*Emitted, srcP
 		st.w.K.Failures = append(st.w.K.Failures, "harness: generated routing headers do not parse")
 		return
 	}
-	// what was learned before this request arrived decides C06; the request
-	// itself (and every re-arrival of it at one of the proxy's own listeners)
-	// teaches from now on
-	prior := map[string][]learnedAt{}
-	for h, la := range st.learned {
-		prior[h] = la
-	}
-	st.learn(op.Listen, op.Proto, op.SrcIP, inVias)
-	for _, e := range ems {
-		_, eip, eport := emissionDest(e.E)
-		if li, tr := c.listenerAt(eip, eport); li >= 0 && tr == e.E.Proto && e.M != nil {
-			if vs, err := e.M.Vias(); err == nil {
-				st.learn(li, tr, udpAddr(e.E.Src).IP.String(), vs)
-				st.w.stat("probe:spiral-arrival")
-			}
-		}
+	prior := st.burstPrior
+	if prior == nil {
+		prior = map[string][]learnedAt{}
 	}
 	// --- C13: is the first Route entry the receiving listener? ---
 	consumed := false
@@ -870,6 +1166,7 @@ func (st *relayState) judgeRequest(op *Op, in *sipwire.Msg, ems []*Emitted, srcP
 		unsupp  bool
 		unknown bool // next-hop host not resolvable by the tables: don't-care destination
 		hopHost string
+		hopHosts []string // static class: next-hop host text per admissible entry (parallel to hosts)
 	}
 	var d dest
 	keep := c.keepNextHop()
@@ -913,6 +1210,7 @@ func (st *relayState) judgeRequest(op *Op, in *sipwire.Msg, ems []*Emitted, srcP
 				protos[strings.ToLower(a.Proto)] = true
 				if ip, ok := c.resolve(a.Host); ok {
 					d.hosts = append(d.hosts, strings.ToLower(a.Proto)+"|"+hostPort(ip, a.Port))
+					d.hopHosts = append(d.hopHosts, a.Host)
 				} else {
 					d.unknown = true
 				}
@@ -926,6 +1224,10 @@ func (st *relayState) judgeRequest(op *Op, in *sipwire.Msg, ems []*Emitted, srcP
 			} else {
 				d.proto = "any"
 			}
+		} else if op.I["outbound"] == 1 && !refServiceMatch(c.Name, in.URI) && st.ruriIsListener(in.URI, l, op.Proto) {
+			// over a connection the proxy opened itself "the listener's own port" is not defined
+			st.w.stat("dontcare:listener-address-over-outbound-connection")
+			return
 		} else if refServiceMatch(c.Name, in.URI) || st.ruriIsListener(in.URI, l, op.Proto) {
 			d.class = "backend"
 		} else {
@@ -987,9 +1289,12 @@ func (st *relayState) judgeRequest(op *Op, in *sipwire.Msg, ems []*Emitted, srcP
 		}
 	case "static":
 		ok := false
-		for _, h := range d.hosts {
+		for i, h := range d.hosts {
 			if h == eproto+"|"+got {
 				ok = true
+				if i < len(d.hopHosts) {
+					d.hopHost = d.hopHosts[i] // the entry that was actually chosen
+				}
 			}
 		}
 		st.judged("C18")
@@ -1051,10 +1356,10 @@ func (st *relayState) judgeRequest(op *Op, in *sipwire.Msg, ems []*Emitted, srcP
 	if d.class == "backend" {
 		insert = "yes"
 		if l.UDP != 0 {
-			admissible = append(admissible, learnedAt{op.Listen, "udp"})
+			admissible = append(admissible, learnedAt{listen: op.Listen, transport: "udp"})
 		}
 		if l.TCP != 0 {
-			admissible = append(admissible, learnedAt{op.Listen, "tcp"})
+			admissible = append(admissible, learnedAt{listen: op.Listen, transport: "tcp"})
 		}
 	} else {
 		if st.isProxyAddr(d.hopHost) {
@@ -1063,7 +1368,7 @@ func (st *relayState) judgeRequest(op *Op, in *sipwire.Msg, ems []*Emitted, srcP
 		} else if la, ok := prior[d.hopHost]; ok {
 			insert = "yes"
 			admissible = st.learned[d.hopHost]
-		} else if st.taughtByThis(d.hopHost, op, inVias) || st.learnedUnderAnotherName(d.hopHost) {
+		} else if st.burstTaught[d.hopHost] || st.taughtByThis(d.hopHost, op, inVias) || st.learnedUnderAnotherName(d.hopHost) {
 			insert = "dontcare"
 		} else {
 			_ = la
@@ -1071,6 +1376,7 @@ func (st *relayState) judgeRequest(op *Op, in *sipwire.Msg, ems []*Emitted, srcP
 	}
 
 	extra := len(outVias) - len(inVias)
+	st.done[op.ID] = &judgedReq{op: op, in: in, em: e, extra: extra, srcPort: srcPort}
 	st.judged("C06")
 	isig := "insert=" + insert + ";class=" + d.class
 	switch {
@@ -1110,8 +1416,8 @@ func (st *relayState) judgeRequest(op *Op, in *sipwire.Msg, ems []*Emitted, srcP
 		nv := outVias[0]
 		okEndpoint := false
 		for _, a := range admissible {
-			al := c.Listens[a.listen]
-			if strings.EqualFold(nv.Transport, a.transport) && nv.Host == al.Addr && nv.EffPort() == al.port(a.transport) {
+			ea, ep := a.endpoint(c)
+			if strings.EqualFold(nv.Transport, a.transport) && nv.Host == ea && nv.EffPort() == ep {
 				okEndpoint = true
 			}
 		}
@@ -1164,7 +1470,8 @@ func (st *relayState) judgeRequest(op *Op, in *sipwire.Msg, ems []*Emitted, srcP
 			okRR := false
 			for _, a := range admissible {
 				al := c.Listens[a.listen]
-				if rr.Host == al.Addr && (rr.Port == al.UDP || rr.Port == al.TCP) {
+				ea, ep := a.endpoint(c)
+				if rr.Host == ea && (rr.Port == ep || a.addr == "" && (rr.Port == al.UDP || rr.Port == al.TCP)) {
 					okRR = true
 				}
 			}
@@ -1293,8 +1600,11 @@ func (st *relayState) isProxyAddr(host string) bool {
 }
 
 func (st *relayState) learn(listen int, proto string, srcIP string, vias []sipwire.Via) {
+	st.learnAt(learnedAt{listen: listen, transport: proto}, srcIP, vias)
+}
+
+func (st *relayState) learnAt(la learnedAt, srcIP string, vias []sipwire.Via) {
 	add := func(h string) {
-		la := learnedAt{listen, proto}
 		for _, x := range st.learned[h] {
 			if x == la {
 				return
